@@ -430,4 +430,119 @@ def SCHEMA_GENERATORS(src, attempt, problems):
     return [('GenSchemaDecl.v', lambda: gen_schema_decl(src, attempt)),
             ('GenHashTags.v', lambda: gen_hash_tags(src, attempt)),
             ('GenPanicArms.v', lambda: gen_panic_arms(src, attempt)),
-            ('GenFmt.v', lambda: gen_fmt(src, attempt))]
+            ('GenFmt.v', lambda: gen_fmt(src, attempt)),
+            ('GenMaxSize.v', lambda: gen_max_size(src, attempt))]
+
+
+# ----------------------------------------------------------------------------------------
+# GenMaxSize.v: the `impl MaxSize for X { const POSTCARD_MAX_SIZE: usize = EXPR; }` rows
+
+def norm_self(t):
+    t = re.sub(r"'_\s*", '', t)
+    t = re.sub(r'\s+', '', t)
+    t = t.replace('&mut', '&mut ')
+    return t
+
+
+class MExprParser:
+    """EXPR := term ('+' term)* ; term := atom ('*' atom)* ; atoms as they occur in max_size.rs"""
+
+    def __init__(self, text, type_params, const_params):
+        self.toks = re.findall(r"<\[|\]>|::|[A-Za-z_][A-Za-z0-9_]*|\d+|[()\[\];,+*<>]", text)
+        self.i = 0
+        self.tp, self.cp = type_params, const_params
+        self.text = text
+
+    def peek(self):
+        return self.toks[self.i] if self.i < len(self.toks) else None
+
+    def eat(self, t=None):
+        x = self.peek()
+        if x is None or (t is not None and x != t):
+            raise Untranslatable("max_size expression `%s`: expected %s at token %d (%s)" % (' '.join(self.text.split()), t, self.i, x))
+        self.i += 1
+        return x
+
+    def expr(self):
+        a = self.term()
+        while self.peek() == '+':
+            self.eat()
+            a = "(EAdd %s %s)" % (a, self.term())
+        return a
+
+    def term(self):
+        a = self.atom()
+        while self.peek() == '*':
+            self.eat()
+            a = "(EMul %s %s)" % (a, self.atom())
+        return a
+
+    def elem(self, name):
+        if name in self.tp:
+            return "(EParam %s)" % coq_str(name)
+        return "(EOf %s)" % coq_str(name)
+
+    def atom(self):
+        t = self.peek()
+        if t is None:
+            raise Untranslatable("max_size expression `%s`: unexpected end" % self.text)
+        if t.isdigit():
+            self.eat()
+            return "(EConst %s)" % t
+        if t == '(':
+            self.eat()
+            a = self.expr()
+            self.eat(')')
+            return a
+        if t == 'max':
+            self.eat(); self.eat('(')
+            a = self.expr(); self.eat(',')
+            b = self.expr(); self.eat(')')
+            return "(EMax %s %s)" % (a, b)
+        if t == 'varint_size':
+            self.eat(); self.eat('(')
+            a = self.expr(); self.eat(')')
+            return "(EVarintSize %s)" % a
+        if t == 'varint_max':
+            self.eat(); self.eat('::'); self.eat('<'); self.eat('Self'); self.eat('>'); self.eat('('); self.eat(')')
+            return "EVarintMaxSelf"
+        if t == '<[':
+            self.eat()
+            el = self.eat(); self.eat(';')
+            ln = self.eat(); self.eat(']>'); self.eat('::'); self.eat('POSTCARD_MAX_SIZE')
+            if ln not in self.cp:
+                raise Untranslatable("max_size expression `%s`: array length %s is not a const parameter" % (self.text, ln))
+            return "(EArrayOf %s %s)" % (self.elem(el), coq_str(ln))
+        if re.match(r'[A-Za-z_]', t):
+            self.eat()
+            if self.peek() == '::':
+                self.eat(); self.eat('POSTCARD_MAX_SIZE')
+                return self.elem(t)
+            if t in self.cp:
+                return "(ELen %s)" % coq_str(t)
+        raise Untranslatable("max_size expression `%s`: token `%s`" % (' '.join(self.text.split()), t))
+
+
+def gen_max_size(src, attempt):
+    out = ["(* GENERATED by tools/translate.py from the Rust sources. Do not edit. *)",
+           "From PV Require Import Base MaxSizeDecl.", "Open Scope N_scope.", "",
+           "(* source/postcard/src/max_size.rs: every `impl MaxSize for X`, Self text normalised *)"]
+
+    def rows():
+        text = src('source/postcard/src/max_size.rs')
+        text = text[:text.index('mod tests')] if 'mod tests' in text else text
+        res = []
+        for m in re.finditer(r'impl\s*(<[^{]*?>)?\s*MaxSize\s+for\s+([^{]+?)\s*\{\s*const\s+POSTCARD_MAX_SIZE\s*:\s*usize\s*=\s*(.+?);\s*\}', text, re.S):
+            gen, selft, expr = m.group(1) or '', m.group(2), m.group(3)
+            tps = re.findall(r'\b([A-Z]\w*)\s*(?::|,|>)', re.sub(r'const\s+\w+\s*:\s*usize', '', gen))
+            cps = re.findall(r'const\s+(\w+)\s*:\s*usize', gen)
+            p = MExprParser(expr, tps, cps)
+            e = p.expr()
+            if p.peek() is not None:
+                raise Untranslatable("max_size expression `%s`: trailing `%s`" % (' '.join(expr.split()), p.peek()))
+            res.append("(%s, %s)" % (coq_str(norm_self(selft)), e))
+        if len(res) < 40:
+            raise Untranslatable("max_size.rs: only %d impl rows found" % len(res))
+        return "Definition maxsize_impls : list (list N * mexpr) :=\n  [%s]." % ';\n   '.join(res)
+    attempt(out, 'max_size.rs:impl rows', rows, 'maxsize_impls')
+    return '\n'.join(out) + '\n'
